@@ -126,8 +126,8 @@ class Scheduler:
                 self.current = pick
                 self.back.clear()
                 self.events[pick].set()
-                if not self.back.wait(timeout=60):
-                    raise Deadlock("worker %d did not come back within 60 s (blocked outside the scheduler?)" % pick)
+                if not self.back.wait(timeout=20):
+                    raise Deadlock("worker %d did not come back within 20 s (blocked outside the scheduler?)" % pick)
                 if self.hook is not None:
                     self.hook(self)
         finally:
